@@ -38,8 +38,8 @@ CHECKS.update({
  'C08': dict(engine='xform', note=XF_NOTE, technique='Coq proof (every walked instance unique afterwards; whole structural invariant kept; idempotence) + correspondence of the uniquify model + union-find elaboration oracle',
    text='proof (uniqueness, well-formedness and idempotence clauses on the model; same-elaborated-design clause by oracle): in every reachable state whose top definition is referenced by the parentless top instance only, after a completed uniquify the walk finds every instance it meets unique - its definition a leaf or referenced by it alone - and a second run returns the state unchanged (C08_makes_unique, C08_idempotent; Proofs/UniqFull.v); in every state reachable by editing calls, with any counters and fuel, a uniquify run that completes keeps the containment invariant of C01 and the reference-set invariant of C02 through every Definition.clone, rename, add_definition and reference change (C08_keeps_well_formed; Proofs/UniqInv.v over CloneInv/CloneRef/RefK) - and the whole structural invariant Inv of C01/C02 incl. pin-wire links and outer-pin tables (C08_keeps_full_invariant; Proofs/CloneFull.v over the faithfulness of Definition._clone) - and on a design whose walked instances are all unique or leaves, uniquify returns the state unchanged (C08_unique_is_fixpoint). The full statement C08_full is kept as a Definition; on every run the model of uniquify (BFS, Definition.clone, add_definition at index+1, rename with the module counter, reference change) is compared with the implementation (full-state dumps incl. announcements) and an independent elaboration (instance tree, leaf types, endpoint partition by union-find) is compared before/after, plus uniqueness, well-formedness, fresh names, idempotence.',
    design='DESIGN.md 5/C08, 10'),
- 'C09': dict(engine='xform', note=XF_NOTE, technique='Coq proof (flatten preserves the C01/C02 invariants, by composition of the step lemmas) + correspondence of the flatten model + elaboration oracle',
-   text='proof (partial): flatten, modelled literally as a composition of the public IR calls, preserves the containment invariant and the reference-set invariant for any netlist, fuel and outcome except the stuck one (Props/C09.v). The connectivity clause C09_full is kept as a Definition; on every run the flatten model is compared with the implementation (full-state dumps) and the independent elaboration before flatten is compared with a direct reading of the flattened top (leaf per leaf path, names, endpoint partition iff).',
+ 'C09': dict(engine='xform', note=XF_NOTE, technique='Coq proof (no hierarchical instance remains; flatten preserves the C01/C02 invariants) + correspondence of the flatten model + elaboration oracle',
+   text='proof (partial): flatten, modelled literally as a composition of the public IR calls, preserves the containment invariant and the reference-set invariant for any netlist, fuel and outcome except the stuck one, in fact the whole invariant Inv (C09_wellformed_preserved); and in every reachable state, after a completed flatten every instance left in the top definition references a leaf definition - no hierarchical instance remains (C09_no_hierarchy_left; Proofs/FlatLeaf.v: along the walk every child of the top definition is queued, leaf-referencing or scheduled for removal, and containers other than the top only lose members). The one-leaf-per-path, naming and connectivity clauses are decided by the oracle: on every run the flatten model is compared with the implementation (full-state dumps) and the independent elaboration before flatten is compared with a direct reading of the flattened top (leaf per leaf path, names, endpoint partition iff).',
    design='DESIGN.md 5/C09, 10'),
 })
 
